@@ -15,6 +15,7 @@ type reqCtx struct {
 	clean  bool // sent at an internally quiet state with no other request on the rid outstanding
 	direct int  // client's count at send time
 	held   bool
+	gw     int // the gateway's own count at the last quiet state before it was sent
 }
 
 type CountMon struct {
@@ -24,6 +25,9 @@ type CountMon struct {
 	seenRsp   []int
 	known     map[*PendingReq]bool
 	overlap   map[string]bool
+	// gw is the gateway's own direct count per connection label and rid, as of
+	// the last quiet state
+	gw map[string]map[string]int
 }
 
 func (m *CountMon) Step(w *World, _ string) {
@@ -52,7 +56,7 @@ func (m *CountMon) Step(w *World, _ string) {
 					}
 				}
 			}
-			m.ctx[p] = &reqCtx{overlap: ov && p.Action == "unsubscribe",clean: m.prevQuiet && others == 0 && len(w.MQ.Pending()) == 0, direct: c.Client.Direct[p.RID], held: c.Client.Holds(p.RID)}
+			m.ctx[p] = &reqCtx{overlap: ov && p.Action == "unsubscribe",clean: m.prevQuiet && others == 0 && len(w.MQ.Pending()) == 0, direct: c.Client.Direct[p.RID], held: c.Client.Holds(p.RID), gw: m.gw[c.Label][p.RID]}
 		}
 		rs := c.Client.Resp
 		for _, r := range rs[m.seenRsp[i]:] {
@@ -72,7 +76,13 @@ func (m *CountMon) Step(w *World, _ string) {
 				}
 				m.overlap[c.Label+" "+p.RID] = true
 			}
-			if p.Action == "unsubscribe" && cx.clean && !c.Client.Ambiguous[p.RID] {
+			if p.Action == "unsubscribe" && cx.clean {
+				// where the client cannot tell what it holds (a resource response
+				// with an error in place of the resource), the request is judged
+				// against the number the gateway itself held when it arrived
+				if c.Client.Ambiguous[p.RID] {
+					cx.direct = cx.gw
+				}
 				want := ""
 				switch {
 				case p.BadCount:
@@ -95,6 +105,14 @@ func (m *CountMon) Step(w *World, _ string) {
 	}
 	if quiet {
 		m.compare(w, false)
+		m.gw = map[string]map[string]int{}
+		for _, cs := range w.ConnSnaps() {
+			d := map[string]int{}
+			for _, x := range cs.Subs {
+				d[x.RID] = x.Direct
+			}
+			m.gw[w.label(cs.CID)] = d
+		}
 	}
 	m.prevQuiet = quiet
 }
